@@ -151,6 +151,7 @@ pub fn to_ex(s: &Sx) -> Option<Ex> {
     }
     let (h, rest) = head(s)?;
     Some(match (h, rest) {
+        ("numf", [bits, _m, _e]) => Ex::Num(Num::Other(atom(bits)?.parse().ok()?)),
         ("num", [m, e]) => Ex::Num(Num::Exact(atom(m)?.parse().ok()?, atom(e)?.parse().ok()?).exact_abs()),
         ("dec", [w]) => Ex::Num(Num::Dec(crate::model::wire_f64(atom(w)?)?)),
         ("decexp", [w, e, up]) => Ex::Num(Num::DecExp(
